@@ -29,11 +29,13 @@ withp=$( (timeout 900 bash -c "$demorun") 2>&1 | tail -8 ); echo "== demo with c
 echo "$withp" | grep -q "FAIL" && r_demo=fail || r_demo=pass
 rm -f $wt/$demodir/zz_seed_demo_test.go
 pkgs=$(for f in $files; do echo ./$(dirname $f)/...; done | sort -u | tr '\n' ' ')
-suite=$( (timeout 2400 go test -vet=off -count=1 -timeout 30m $pkgs) 2>&1 | grep -E "^(ok|FAIL|---|panic)" | head -30 ); echo "== existing tests of $pkgs with change: $suite" >>$log
+# TestSequenceLargeLog (about 3 min alone, fails its internal deadline when the machine is busy) is run separately and
+# sequentially by confirm_largelog.sh for the changes that touch internal/ctlog
+suite=$( (timeout 2400 go test -vet=off -count=1 -timeout 30m -skip '^TestSequenceLargeLog$' $pkgs) 2>&1 | grep -E "^(ok|FAIL|---|panic)" | head -30 ); echo "== existing tests of $pkgs with change: $suite" >>$log
 fails=$(echo "$suite" | grep -E "^--- FAIL" | sed 's/--- FAIL: //; s/ .*//' | sort -u | tr '\n' ' ')
 # load-sensitive tests (they also fail on the unchanged tree when the machine is busy): re-run them alone once
 if echo "$fails" | grep -qE "TestScripts|TestSequenceLargeLog"; then
-  re=$( (timeout 1200 go test -vet=off -count=1 -timeout 15m -run '^(TestScripts|TestSequenceLargeLog)$' $pkgs) 2>&1 | grep -E "^(ok|FAIL|---)" | head -20 ); echo "== re-run of load-sensitive tests alone: $re" >>$log
+  re=$( (timeout 1200 go test -vet=off -count=1 -timeout 15m -run '^TestScripts$' $pkgs) 2>&1 | grep -E "^(ok|FAIL|---)" | head -20 ); echo "== re-run of load-sensitive tests alone: $re" >>$log
   refails=$(echo "$re" | grep -E "^--- FAIL" | sed 's/--- FAIL: //; s/ .*//' | sort -u | tr '\n' ' ')
   fails=$( (echo "$fails" | tr ' ' '\n' | grep -vE "^(TestScripts|TestSequenceLargeLog)$"; echo "$refails" | tr ' ' '\n') | grep -v '^$' | sort -u | tr '\n' ' ')
 fi
@@ -51,7 +53,8 @@ m['confirmed']={
  'how':'scratch git worktree of /repo HEAD under /tmp (removed afterwards); demo copied in as zz_seed_demo_test.go',
  'demo_cmd':demorun,
  'demo_on_unchanged_tree':rb,'builds_with_change':rbuild,'go_vet_touched_packages':rvet,'demo_with_change':rdemo,
- 'existing_tests_cmd':'go test -vet=off -count=1 -timeout 30m '+pkgs,
+ 'existing_tests_cmd':"go test -vet=off -count=1 -timeout 30m -skip '^TestSequenceLargeLog$' "+pkgs+" (TestSequenceLargeLog: see large_log_test)",
+ 'large_log_test':'pending (run alone by selftest/confirm_largelog.sh)' if ('internal/ctlog' in pkgs or pkgs.strip()=='././...') else 'not applicable (internal/ctlog not touched)',
  'existing_tests_failing_with_change':fails.split(),
  'existing_tests_failures_not_attributable_to_environment':unexpected,
  'kept': rb=='pass' and rbuild=='ok' and rdemo=='fail' and not unexpected,
